@@ -14,6 +14,8 @@ import vlib
 
 GRID = {
     "int": ["-1", "0", "1", "2", "8", "9", "10", "11"],
+    "Fl": ["Fl(-1.0)", "Fl(-0.5)", "Fl(0.0)", "Fl(0.5)", "Fl(1.0)", "Fl(math.NaN())"],
+    "Str": ['Str("")', 'Str("a")', 'Str("ab")'],
     "float64": ["-1.0", "-0.5", "0.0", "0.5", "1.0", "math.NaN()"],
     "string": ['""', '"a"', '"ab"', '"k=v"', '"A"'],
     "[]byte": ["nil", '[]byte("a")', '[]byte("ab")'],
@@ -48,6 +50,10 @@ var (
 	_ = time.Unix
 	_ = unicode.ToUpper
 )
+
+// Fl and Str are defined types over float64 and string.
+type Fl float64
+type Str string
 
 // T is a small struct with a method set.
 type T struct {
